@@ -20,6 +20,7 @@ list is `[lo, …, hi-1]`" is exactly "the result is the left-to-right fold usin
 import TbbVerif.Core.Sched
 import TbbVerif.Core.Proto
 import TbbVerif.Generated.C06
+import TbbVerif.Model.C05
 
 namespace TbbVerif.C06
 
@@ -251,12 +252,10 @@ inductive Val where
   deriving Repr, DecidableEq, Inhabited
 
 /-- `blocked_range::do_split(r, proportional_split&)`:
-`right_part = size_t(float(size) * float(right) / float(left + right) + 0.5f)`.
-For `size < 2^16` and `left + right ≤ 64` the binary32 evaluation is exact enough that the result is
-`⌊size·right/(left+right) + 1/2⌋` (rounding error < 2^-8 < 1/(2(left+right))); larger arguments are
-rejected here (the float model belongs to C05). -/
-def propRight (size l r : Nat) : Option Nat :=
-  if size < 65536 ∧ l + r ≤ 64 ∧ 0 < l + r then some ((2 * size * r + (l + r)) / (2 * (l + r))) else none
+`right_part = size_t(float(size) * float(right) / float(left + right) + 0.5f)`, evaluated in binary32 exactly as coded
+(round-to-nearest-even after every operation): the model of C05 (`C05.propRightPart`, tied to the real `float` code by
+C05's differential on every run), for EVERY size and proportion; `none` where the C++ expression is undefined. -/
+def propRight (size l r : Nat) : Option Nat := C05.propRightPart size l r
 
 /-- The split decision of one `start_deterministic_reduce` task with range `[lo,hi)`, grain `g`,
 partition divisor `d`: `some (mid, dLeft, dRight)` if it offers work, `none` if it runs its body.
@@ -466,6 +465,73 @@ def splitRange (lt : Cmp) (a : Array Nat) : Option (Array Nat × Nat) :=
     match partLoop lt a1.size a1 0 a1.size with
     | none => none
     | some (a2, j) => some (a2.swapIfInBounds j 0, j)
+
+
+/-! ### the same code with the sequence of comparator calls `(first argument, second argument)` recorded (for the white-box
+comparison-trace differential; the driver also checks at run time that the traced version computes `splitRange`) -/
+
+def med3T (lt : Cmp) (a : Array Nat) (l m r : Nat) : Nat × List (Nat × Nat) :=
+  if lt (el a l) (el a m) then
+    (if lt (el a m) (el a r) then (m, [(el a l, el a m), (el a m, el a r)])
+     else (if lt (el a l) (el a r) then r else l, [(el a l, el a m), (el a m, el a r), (el a l, el a r)]))
+  else
+    (if lt (el a r) (el a m) then (m, [(el a l, el a m), (el a r, el a m)])
+     else (if lt (el a r) (el a l) then r else l, [(el a l, el a m), (el a r, el a m), (el a r, el a l)]))
+
+/-- the three inner medians are function arguments (their evaluation order is unspecified in C++): their comparisons are
+returned separately from those of the outer median -/
+def pmed9T (lt : Cmp) (a : Array Nat) : Nat × List (Nat × Nat) × List (Nat × Nat) :=
+  let o := a.size / Generated.C06.medianDivisor
+  let m1 := med3T lt a 0 o (o * 2)
+  let m2 := med3T lt a (o * 3) (o * 4) (o * 5)
+  let m3 := med3T lt a (o * 6) (o * 7) (a.size - 1)
+  let m := med3T lt a m1.1 m2.1 m3.1
+  (m.1, m1.2 ++ m2.2 ++ m3.2, m.2)
+
+def scanDownT (lt : Cmp) (a : Array Nat) : Nat → Option Nat × List (Nat × Nat)
+  | 0 => (none, [])
+  | j + 1 =>
+      if lt (el a 0) (el a j) then
+        let r := scanDownT lt a j
+        (r.1, (el a 0, el a j) :: r.2)
+      else (some j, [(el a 0, el a j)])
+
+def scanUpFT (lt : Cmp) (a : Array Nat) : Nat → Nat → (Nat × Bool) × List (Nat × Nat)
+  | 0, i => ((i, true), [])
+  | d + 1, i =>
+      if lt (el a (i + 1)) (el a 0) then
+        let r := scanUpFT lt a d (i + 1)
+        (r.1, (el a (i + 1), el a 0) :: r.2)
+      else ((i + 1, false), [(el a (i + 1), el a 0)])
+
+def partLoopT (lt : Cmp) : Nat → Array Nat → Nat → Nat → Option (Array Nat × Nat) × List (Nat × Nat)
+  | 0, _, _, _ => (none, [])
+  | fuel + 1, a, i, j =>
+      let sd := scanDownT lt a j
+      match sd.1 with
+      | none => (none, sd.2)
+      | some j' =>
+          if j' < i then (none, sd.2)
+          else
+            let su := scanUpFT lt a (j' - i) i
+            let (i', viaGoto) := su.1
+            if viaGoto then (some (a, j'), sd.2 ++ su.2)
+            else if i' = j' then (some (a, j'), sd.2 ++ su.2)
+            else
+              let r := partLoopT lt fuel (a.swapIfInBounds i' j') i' j'
+              (r.1, sd.2 ++ su.2 ++ r.2)
+
+/-- `split_range` with its comparison trace: (result, comparisons of the three inner medians, all later comparisons in order) -/
+def splitRangeT (lt : Cmp) (a : Array Nat) : Option (Array Nat × Nat) × List (Nat × Nat) × List (Nat × Nat) :=
+  if a.size = 0 then (none, [], [])
+  else
+    let pm := pmed9T lt a
+    let m := pm.1
+    let a1 := if m ≠ 0 then a.swapIfInBounds 0 m else a
+    let r := partLoopT lt a1.size a1 0 a1.size
+    match r.1 with
+    | none => (none, pm.2.1, pm.2.2 ++ r.2)
+    | some (a2, j) => (some (a2.swapIfInBounds j 0, j), pm.2.1, pm.2.2 ++ r.2)
 
 /-- `parallel_sort`: `if (end - begin < min_parallel_size) std::sort(…) else parallel_quick_sort(…)` (for `end > begin`) -/
 def serialPath (n : Nat) : Bool := decide (n < Generated.C06.minParallelSize)
@@ -915,6 +981,8 @@ def parseCmp (w : String) : Option QS.Cmp :=
   else if w == "gt" then some (fun x y => decide (x > y))
   else if w.startsWith "div" then (nat? (w.drop 3).toString).bind fun d => if d = 0 then none else some (fun x y => decide (x / d < y / d))
   else if w.startsWith "mod" then (nat? (w.drop 3).toString).bind fun m => if m = 0 then none else some (fun x y => decide (x % m < y % m))
+  -- a strict PARTIAL order whose incomparability is not transitive (not a strict weak ordering): x precedes y iff y - x > k
+  else if w.startsWith "gap" then (nat? (w.drop 3).toString).bind fun k => some (fun x y => decide (x + k < y))
   else none
 
 def parseArr (ws : List String) : Option (Array Nat) :=
@@ -990,6 +1058,16 @@ def drive (ws : List String) : String :=
           match QS.splitRange lt a with
           | some (a', j) => s!"{j} {a'.size - (j + 1)} {j + 1} {showArr a'}"
           | none => "none"
+      | _, _ => "bad-op"
+  | "splitt" :: c :: rest =>
+      match parseCmp c, parseArr rest with
+      | some lt, some a =>
+          let r := QS.splitRangeT lt a
+          let same := r.1 == QS.splitRange lt a
+          let tr (l : List (Nat × Nat)) : String := ",".intercalate (l.map fun p => s!"{p.1}:{p.2}")
+          match r.1 with
+          | some (a', j) => s!"{j} {a'.size - (j + 1)} {j + 1} {showArr a'} same={showBool same} k={r.2.1.length} trace={tr (r.2.1 ++ r.2.2)}"
+          | none => s!"none same={showBool same} k={r.2.1.length} trace={tr (r.2.1 ++ r.2.2)}"
       | _, _ => "bad-op"
   | "med3" :: c :: l :: m :: r :: rest =>
       match parseCmp c, nat? l, nat? m, nat? r, parseArr rest with
